@@ -9,7 +9,8 @@
   Full statement (goal): `∀ ops, (ops.foldl step init).inv` for the whole mutating API, and
   `isRemoved` monotone along every history.
 -/
-import XotModel.Lemmas.ForestBasic
+import XotModel.Lemmas.FinvOps1
+import XotModel.Lemmas.FinvOps4
 
 namespace XotModel.Props
 open XotModel
@@ -38,5 +39,133 @@ theorem C04_setValue_handles (f : Forest) (h : Nat) (v : Value) :
 
 /-- Non-vacuity: a concrete non-trivial forest satisfying the invariant. -/
 example : ({ roots := [.node 0 .document [.node 1 (.element 2) [.node 2 (.namespace 0 2) [], .node 3 (.attribute 3 ['v']) [], .node 4 (.text ['x']) []]]], next := 5 } : Forest).inv = true := by decide
+
+/-! ### Handle bookkeeping of the primitives
+
+Arguments that are not live handles are outside the scope of these statements (hypothesis
+`isLive` / `get? = some`); for such arguments the primitives are the identity or drop the tree,
+see the definitions. -/
+
+/-- `new_node` adds exactly the fresh handle `f.next`. -/
+theorem C04_newNode_handles (f : Forest) (v : Value) :
+    (f.newNode v).1.allHandles = f.allHandles ++ [f.next] ∧ (f.newNode v).2 = f.next ∧
+    (f.newNode v).1.next = f.next + 1 := ⟨Forest.allHandles_newNode f v, rfl, rfl⟩
+
+/-- `cut` (indextree `detach`): the remaining handles and the handles of the cut subtree
+    partition the old handles. -/
+theorem C04_cut_handles (f f' : Forest) (h : Nat) (t : HTree) (nd : f.allHandles.Nodup)
+    (hc : f.cut h = (f', some t)) : (f'.allHandles ++ HTree.handles t).Perm f.allHandles :=
+  Forest.cut_perm nd hc
+
+/-- `remove_subtree`. -/
+theorem C04_dropSubtree_handles (f : Forest) (h : Nat) (t : HTree) (nd : f.allHandles.Nodup)
+    (hg : f.get? h = some t) : ((f.dropSubtree h).allHandles ++ HTree.handles t).Perm f.allHandles :=
+  Forest.dropSubtree_perm nd hg
+
+/-- indextree `remove`: exactly the handle `h` disappears, its children stay. -/
+theorem C04_spliceOut_handles (f : Forest) (h : Nat) (nd : f.allHandles.Nodup) (hl : f.isLive h = true) :
+    ((f.spliceOut h).allHandles ++ [h]).Perm f.allHandles := Forest.spliceOut_perm nd hl
+
+/-- Raw insertion of a tree next to a live non-root node / under a live node: the new handles
+    are the old ones and the tree's. -/
+theorem C04_placeAfter_handles (f : Forest) (ref : Nat) (t : HTree) (nd : f.allHandles.Nodup)
+    (hl : f.isLive ref = true) (hr : f.isRoot ref = false) :
+    (f.placeAfter ref t).allHandles.Perm (f.allHandles ++ HTree.handles t) :=
+  Forest.placeAfter_perm t nd hl hr
+
+theorem C04_placeBefore_handles (f : Forest) (ref : Nat) (t : HTree) (nd : f.allHandles.Nodup)
+    (hl : f.isLive ref = true) (hr : f.isRoot ref = false) :
+    (f.placeBefore ref t).allHandles.Perm (f.allHandles ++ HTree.handles t) :=
+  Forest.placeBefore_perm t nd hl hr
+
+theorem C04_placeLast_handles (f : Forest) (p : Nat) (t : HTree) (nd : f.allHandles.Nodup)
+    (hl : f.isLive p = true) : (f.placeLast p t).allHandles.Perm (f.allHandles ++ HTree.handles t) :=
+  Forest.placeLast_perm t nd hl
+
+theorem C04_placeFirst_handles (f : Forest) (p : Nat) (t : HTree) (nd : f.allHandles.Nodup)
+    (hl : f.isLive p = true) : (f.placeFirst p t).allHandles.Perm (f.allHandles ++ HTree.handles t) :=
+  Forest.placeFirst_perm t nd hl
+
+/-! ### Preservation of the invariant, operation by operation
+
+Every statement below holds for ALL forests satisfying the invariant and ALL arguments (live
+or not: a call on a handle that is not live is refused by the argument checks or is the
+identity), and for every outcome of the call (`ok`, `err`, `panic`). -/
+
+/-- Node creation. -/
+theorem C04_newNode (f : Forest) (v : Value) (h : f.Inv) : (f.newNode v).1.Inv := Forest.newNode_inv h v
+
+theorem C04_newDocument (f : Forest) (h : f.Inv) : f.newDocument.1.Inv := Forest.newNode_inv h _
+theorem C04_newElement (f : Forest) (n : Nat) (h : f.Inv) : (f.newElement n).1.Inv := Forest.newNode_inv h _
+theorem C04_newText (f : Forest) (s : Str) (h : f.Inv) : (f.newText s).1.Inv := Forest.newNode_inv h _
+theorem C04_newComment (f : Forest) (s : Str) (h : f.Inv) : (f.newComment s).1.Inv := Forest.newNode_inv h _
+theorem C04_newPi (f : Forest) (t : Nat) (d : Option Str) (h : f.Inv) : (f.newPi t d).1.Inv :=
+  Forest.newNode_inv h _
+theorem C04_newAttributeNode (f : Forest) (n : Nat) (v : Str) (h : f.Inv) :
+    (f.newAttributeNode n v).1.Inv := Forest.newNode_inv h _
+theorem C04_newNamespaceNode (f : Forest) (p n : Nat) (h : f.Inv) :
+    (f.newNamespaceNode p n).1.Inv := Forest.newNode_inv h _
+
+/-- The text-consolidation helpers of manipulation.rs keep the invariant for all arguments. -/
+theorem C04_removeConsolidate (f : Forest) (prev next : Option Nat) (h : f.Inv) :
+    (f.removeConsolidate prev next).1.Inv := Forest.removeConsolidate_inv h prev next
+
+theorem C04_addConsolidate (f : Forest) (node : Nat) (prev next : Option Nat) (h : f.Inv) :
+    (f.addConsolidate node prev next).1.Inv := Forest.addConsolidate_inv h node prev next
+
+/-- The moves. -/
+theorem C04_append (f : Forest) (parent child : Nat) (h : f.Inv) : (f.append parent child).1.Inv :=
+  Forest.append_inv h parent child
+
+theorem C04_prepend (f : Forest) (parent child : Nat) (h : f.Inv) : (f.prepend parent child).1.Inv :=
+  Forest.prepend_inv h parent child
+
+theorem C04_insertAfter (f : Forest) (ref new : Nat) (h : f.Inv) : (f.insertAfter ref new).1.Inv :=
+  Forest.insertAfter_inv h ref new
+
+theorem C04_insertBefore (f : Forest) (ref new : Nat) (h : f.Inv) : (f.insertBefore ref new).1.Inv :=
+  Forest.insertBefore_inv h ref new
+
+theorem C04_detach (f : Forest) (node : Nat) (h : f.Inv) : (f.detach node).1.Inv :=
+  Forest.detach_inv h node
+
+theorem C04_remove (f : Forest) (node : Nat) (h : f.Inv) : (f.remove node).1.Inv :=
+  Forest.remove_inv h node
+
+/-- Setters: the kind of the value does not change, so neither does validity; in strict mode
+    `setText` keeps "no adjacent text" because text-ness does not change. -/
+theorem C04_setElementName (f : Forest) (node name : Nat) (h : f.Inv) : (f.setElementName node name).1.Inv :=
+  Forest.setElementName_inv h node name
+
+theorem C04_setText (f : Forest) (node : Nat) (s : Str) (h : f.Inv) : (f.setText node s).1.Inv :=
+  Forest.setText_inv h node s
+
+theorem C04_setComment (f : Forest) (node : Nat) (s : Str) (h : f.Inv) : (f.setComment node s).1.Inv :=
+  Forest.setComment_inv h node s
+
+theorem C04_setPiData (f : Forest) (node : Nat) (d : Option Str) (h : f.Inv) : (f.setPiData node d).1.Inv :=
+  Forest.setPiData_inv h node d
+
+/-- A value update that stays within the kind of the old value. -/
+theorem C04_setValue (f : Forest) (n : Nat) (v v' : Value) (h : f.Inv) (hv : f.value? n = some v)
+    (hk : SameKind v v') (ha : ∀ x, kidAllowed v' x = kidAllowed v x) : (f.setValue n v').Inv :=
+  Forest.setValue_inv h hv hk ha
+
+/-- Map removal and what is built from `remove`. -/
+theorem C04_mapRemove (f : Forest) (k : Forest.MapKind) (parent key : Nat) (h : f.Inv) :
+    (f.mapRemove k parent key).1.Inv := Forest.mapRemove_inv h k parent key
+
+theorem C04_mapClear (f : Forest) (k : Forest.MapKind) (parent : Nat) (h : f.Inv) :
+    (f.mapClear k parent).1.Inv := Forest.mapClear_inv h k parent
+
+theorem C04_removeInsignificantWhitespace (f : Forest) (node : Nat) (h : f.Inv) :
+    (f.removeInsignificantWhitespace node).Inv := Forest.removeInsignificantWhitespace_inv h node
+
+/-- Non-vacuity of the move theorems: an invariant forest in strict mode on which `append` has to
+    merge text on both sides (`<a>x<b/>y</a>`, `<c>z</c>`; append the element `b` to `c`, then the
+    text `y`+`x` merge), checked by evaluation. -/
+example : let f : Forest := { roots := [.node 0 (.element 1) [.node 1 (.text ['x']) [], .node 2 (.element 2) [], .node 3 (.text ['y']) []], .node 4 (.element 3) [.node 5 (.text ['z']) []]], next := 6 }
+    f.inv = true ∧ (f.append 4 2).2 = .ok ∧ (f.append 4 2).1.inv = true ∧
+    (f.append 4 1).2 = .ok ∧ (f.append 4 1).1.inv = true ∧ (f.insertAfter 5 3).1.inv = true := by decide
 
 end XotModel.Props
